@@ -15,7 +15,7 @@ BASE_FLAGS = ["-O0", "-g0"]             # ~2000 template instantiations on each 
 HARNESS_FLAGS = list(BASE_FLAGS)
 # harness/c20.cpp is compiled as NPARTS translation units in parallel (-DC20_PART=k) by run() below; check.py then compiles
 # main() (-DC20_PART=-1) and links them
-NPARTS = 24
+NPARTS = 26
 
 
 def _probe(code):
@@ -101,7 +101,14 @@ RULE = ("Stateless lines: (pair cmp) every pair of pairs over {0,1,2} for int el
         "relations; (pair value ops) 23 operations (default construction, construct from lvalues/rvalues, copy, move, converting "
         "copy/move, copy/move/converting assignment, member/free/self swap, make_pair, get<I> through the four reference "
         "qualifications, get<T> through lvalue / const lvalue / rvalue, structured binding) x all 36 combinations of element kinds "
-        "{int, instrumented copy+move class, move-only, copy-only, int&, int const}; (tuple) equality of every pair of tuples over "
+        "{int, instrumented copy+move class, move-only, copy-only, int&, int const}; (pair with reference-to-class elements) the "
+        "same 23 operations x 16 combinations of the element kinds {instrumented&, instrumented const&} with each other and with "
+        "{int, instrumented class, int&} - construction binds the reference (no copy, nothing moved), assignment assigns through "
+        "it, and forward<T&> of a source element is an lvalue (1 counted copy, the referent keeps its value); (pair converting "
+        "assignment between different element kinds) xassign `a = as_const(b)` and xmassign `a = move(b)` for 10 (destination "
+        "kinds, source kinds) combinations: pair<Trk,Trk> from pair<Trk&,Trk&> / pair<Trk const&,Trk const&> / pair<Trk,Trk&>, "
+        "pair<Trk&,Trk&> from pair<Trk,Trk> / pair<Trk const&,..>, per-element mixed forms, pair<int,int&> from pair<int&,int>, and "
+        "one non-assignable destination (n/a), plus 600 (thorough 6000) random lines over these; (tuple) equality of every pair of tuples over "
         "{0,1,2} with arity 0..3; 31 value operations (the pair's, plus make_from_tuple, forward_as_tuple, tie, tie(...) = t, "
         "construction from a pair; converting constructors / assignments widen / narrow the int elements and keep the others) x 56 "
         "element-kind lists: every list of length 1 and 2 (all 36 combinations), the 6 uniform triples and 8 mixed triples in "
@@ -162,6 +169,16 @@ SEARCH_CAP = 400000
 KINDS = [0, 1, 2, 3, 4, 5]
 PAIR_OPS = ["dflt", "ctor", "ctorr", "copy", "move", "assign", "massign", "swap", "fswap", "selfswap", "make", "maker",
             "get", "getc", "getr", "getcr", "sb", "conv", "convr", "cassign", "cmassign", "gett", "gettr"]
+# pair lines only: element kinds 6 (reference to the instrumented class) and 7 (const reference to it); harness/c20.cpp pair_k2 /
+# pairx_line instantiate them with each other and with the partner kinds {int, instrumented class, int&}
+PAIR_REF_KINDS = [6, 7]
+PAIR_REF_PARTNERS = [0, 1, 4]
+PAIR_REF_COMBOS = ([[k1, k2] for k1 in PAIR_REF_KINDS for k2 in PAIR_REF_KINDS]
+                   + [c for r in PAIR_REF_KINDS for q in PAIR_REF_PARTNERS for c in ([r, q], [q, r])])
+# converting assignment between pairs of different element kinds (harness/c20.cpp pair_xline): (destination kinds, source kinds)
+XOPS = ["xassign", "xmassign"]
+XKINDS = [([1, 1], [6, 6]), ([6, 6], [1, 1]), ([1, 1], [7, 7]), ([6, 6], [7, 7]), ([6, 1], [1, 6]), ([1, 6], [6, 6]),
+          ([1, 6], [1, 7]), ([0, 4], [4, 0]), ([7, 1], [1, 1]), ([1, 1], [1, 6])]
 TUPLE_OPS = ["dflt", "ctor", "ctorr", "copy", "move", "assign", "massign", "swap", "fswap", "selfswap", "make", "maker",
              "get", "getc", "getr", "getcr", "sb", "gett", "gettr", "mft", "mftr", "fwd", "tie", "tieassign", "tiemassign",
              "conv", "convr", "cassign", "cmassign", "convp", "convpr"]
@@ -331,6 +348,30 @@ def generate(tier, seed):
         b = [rnd.randint(0, 99), rnd.randint(0, 99)]
         add("pair op=%s t=%s a=%s b=%s" % (rnd.choice(PAIR_OPS), fmt_list([rnd.choice(KINDS), rnd.choice(KINDS)]), fmt_list(a), fmt_list(b)),
             "pair/random")
+    # ---- pair with reference-to-instrumented elements (kinds 6, 7): every op x the instantiated kind combinations; converting
+    # assignments between pairs of different kinds.  A separate generator (same seed) keeps the other random streams unchanged.
+    rnd2 = random.Random("C20-pair-ref-%s" % seed)
+
+    def ref_tag(ks):
+        return "-tref" if 6 in ks else "-tcref"
+    for op in PAIR_OPS:
+        for ks in PAIR_REF_COMBOS:
+            for a, b in samples:
+                add("pair op=%s t=%s a=%s b=%s" % (op, fmt_list(ks), fmt_list(a), fmt_list(b)), "pair/" + op + ref_tag(ks))
+    for op in XOPS:
+        for kd, ks in XKINDS:
+            for a, b in samples:
+                add("pair op=%s t=%s u=%s a=%s b=%s" % (op, fmt_list(kd), fmt_list(ks), fmt_list(a), fmt_list(b)), "pair/" + op)
+    for _ in range(6000 if thorough else 600):
+        a = [rnd2.randint(0, 99), rnd2.randint(0, 99)]
+        b = [rnd2.randint(0, 99), rnd2.randint(0, 99)]
+        if rnd2.random() < 0.3:
+            kd, ks = rnd2.choice(XKINDS)
+            add("pair op=%s t=%s u=%s a=%s b=%s" % (rnd2.choice(XOPS), fmt_list(kd), fmt_list(ks), fmt_list(a), fmt_list(b)),
+                "pair/random-x")
+        else:
+            add("pair op=%s t=%s a=%s b=%s" % (rnd2.choice(PAIR_OPS), fmt_list(rnd2.choice(PAIR_REF_COMBOS)), fmt_list(a), fmt_list(b)),
+                "pair/random-ref")
     # ---- tuple equality: all pairs of tuples over the domain, arity 0..3 (arity 0: the one empty tuple)
     for n in (0, 1, 2, 3):
         for a in itertools.product(V, repeat=n):
@@ -583,7 +624,16 @@ LEVEL_TEXT = ("pair and tuple members are modelled as the member-wise expansion 
               "pointer member the model computes forwards is the target the specification resolves backwards from the most recent "
               "operation (refPtrs_designates), a copy designates the source's target, an assignment rebinds only the assigned wrapper, "
               "and a call through any wrapper is exactly one call of the designated target.  Also stated and proved, but with little "
-              "proof content because model and specification are the same few lines: (e) the member-wise pair/tuple operations "
+              "proof content because model and specification are the same few lines: (e) the member-wise pair/tuple operations (pair move assignment is modelled as "
+              "`first = forward<first_type>(p.first)` and the converting move assignment as `first = forward<U1>(p.first)`, after "
+              "the fix commits of this round: for a reference element the forwarded expression is an lvalue, so the model "
+              "copy-assigns the referent (counted) and leaves it unchanged; construction cost - copyCost / moveCost: a reference is "
+              "bound - and assignment cost - assignCost / moveAssignCost: assigned through - are separate functions of the kind; "
+              "convAssignAll_eq / convMoveAssignAll_eq: the converting assignments, a two-step model - value category of "
+              "forward<U>(p.first), then the assignment operator of the class -, equal the map/sum form of [pairs.pair] over the SOURCE "
+              "kinds; convAssignAll_same / convMoveAssignAll_same: with equal kinds on both sides they are assignAll / moveAssignAll; "
+              "convMoveAssign_keeps_referents: a source whose elements are all of reference kind is left unchanged by a move "
+              "assignment) "
               "(default/copy/move construction, assignment, swap, get, make_from_tuple - for target kinds with an "
               "initializer_list constructor, aggregates, explicit constructors and narrowing parameters the model initialises with "
               "parentheses as the header does and equals the direct-non-list-initialisation of [tuple.apply] (makeFromTupleT_eq); "
@@ -642,6 +692,12 @@ CORRESPONDENCE_ONLY = [
     "(conversion matrix, mft lines), which is what catches a changed constraint / a changed initialisation form",
     "Spec.listInit (what T{x...} would do) is not behaviour of the library: it is validated against g++ by the form=brace lines "
     "(both harness columns are the compiler's) and used only by listInit_differs / listInit_same",
+    "pair element kinds 6 / 7 (instrumented&, instrumented const&) are instantiated only with each other and with {int, instrumented "
+    "class, int&} (16 of the 28 new combinations) and the converting assignments only for the 10 combinations of XKINDS; "
+    "is_assignable_v of etl::pair and std::pair for these combinations is compared by static_assert (pair_xop); get<I>(rvalue pair) of "
+    "a reference element is observed by binding a reference, not by constructing an object; the destination kind of a converting "
+    "assignment has no effect in the model beyond applicability; kinds 6 / 7 are not generated for tuple / tuple_cat (compile time; "
+    "tuple move assignment goes through get<I>(move(other)) and was found correct by a probe)",
     "Lemmas.invoke_spec / refWrap_spec / functionRef_spec / bindFront_spec / notFn_spec / apply_spec (model = executable spec): "
     "transcription checks between two copies of the same few lines, deliberately not counted as property theorems",
 ]
@@ -649,7 +705,8 @@ P = "Tetl.C20.Props."
 THEOREMS = {
     "pair": [P + n for n in ("pair_rels_eq_synth3", "pair_rels_dbl_iff", "pair_rels_dbl_partial", "pair_lt_iff", "pair_trichotomy",
                              "pair_derived", "pair_lt_trans", "defaultAll_eq", "copyAll_eq", "moveAll_eq", "assignAll_eq",
-                             "moveAssignAll_eq", "swapAll_eq", "getAll_eq")],
+                             "moveAssignAll_eq", "swapAll_eq", "getAll_eq", "convAssignAll_eq", "convMoveAssignAll_eq",
+                             "convAssignAll_same", "convMoveAssignAll_same", "convMoveAssign_keeps_referents")],
     "tuple": [P + n for n in ("tuple_eq_iff", "defaultAll_eq", "copyAll_eq", "moveAll_eq", "assignAll_eq", "moveAssignAll_eq",
                               "swapAll_eq", "getAll_eq", "makeFromTuple_eq", "apply_once", "applyMember_once", "applyMember_data")],
     "tcat": [P + "tuple_cat_eq", P + "copyAll_eq", P + "moveAll_eq"],
